@@ -42,13 +42,17 @@ def run(ctx):
                 out, err = None, type(e).__name__
             add({"kind": "tk", "key": k.value, "i": i, "out": kname(out), "scaleIn": scale_of(k),
                  "scaleOut": scale_of(out), "err": err, "grp": "t"})
+    import numpy as np
     for a in range(128):
         row = []
+        # pitches as plain ints and, for every fourth row, as numpy integer scalars (what a pitch array hands out)
+        conv = [int, np.uint8, np.int8, np.int64][a % 4] if a % 4 else int
         for b in range(128):
             try:
-                d = CircleOfFifths.get_distance(a, b)
-                land = CircleOfFifths.from_distance(a, d)
-                pos = CircleOfFifths.get_position(b)
+                d = CircleOfFifths.get_distance(conv(a), conv(b))
+                land = CircleOfFifths.from_distance(conv(a), d)
+                pos = CircleOfFifths.get_position(conv(b))
+                d, land, pos = int(d), int(land), int(pos)
             except Exception:
                 d, land, pos = -99, -99, -99
             row.append({"b": b, "pos": pos, "dist": d, "land": land})
